@@ -64,7 +64,7 @@ CORPUS = [
     (B, "C08", "dof/_tools.py", "mask[dof0] = False", "mask[dof0[1:]] = False"),
     (B, "C08", "dof/_loadcase.py", 'bounds["left-x"] = Boundary(f, skip=active, **{fx: left})', 'bounds["left-x"] = Boundary(f, skip=inactive, **{fx: left})'),
     # ---- C09
-    (B, "C09,C19", "tools/_post.py", "return forces_first_field.reshape(-1, dim)[boundary.points].sum(axis=0)", "return forces_first_field.reshape(-1, dim)[boundary.points[:1]].sum(axis=0)"),
+    (B, "C09,C19", "tools/_post.py", "return ((forces_first_field.reshape(-1, dim))[boundary.points]).sum(axis=0)", "return ((forces_first_field.reshape(-1, dim))[boundary.points[:1]]).sum(axis=0)"),
     # ---- C10
     (B, "C10,C01", "mechanics/_solidbody_incompressible.py", "self.results.state.p[:] = self.bulk * (self.results.state.J - 1)", "self.results.state.p[:] = self.bulk * self.results.state.J"),
     # ---- C11
@@ -104,6 +104,12 @@ CORPUS = [
     # ---- C20
     (B, "C20", "tools/_save.py", 'point_data["Displacements"] = u.values', 'point_data["Displacements"] = u.values * 2'),
     (B, "C20", "mesh/_container.py", "self.meshes[i].points = self.points = points\n\n    def pop", "self.points = points\n\n    def pop"),
+    # ---- further classes learnt from the sub-agent round (falsy guards, aliasing, configuration-specific slips)
+    (B, "C02", "assembly/expression/_bilinear.py", "            aibj = zip(idx_a.ravel(), idx_i.ravel(), idx_b.ravel(), idx_j.ravel())\n\n            def contribution", "            aibj = zip(*np.indices(values.shape[:4]).reshape(4, -1))\n\n            def contribution"),
+    (B, "C18,C01", "tools/_newton.py", "if body.assemble.multiplier is not None:\n            K *= body.assemble.multiplier", "if body.assemble.multiplier:\n            K *= body.assemble.multiplier"),
+    (B, "C13", "region/_boundary.py", "tangents.append(dX_1 / np.linalg.norm(dX_1, axis=0))", "tangents.append(dX_1)"),
+    (B, "C19", "tools/_project.py", "        values = np.average(values, axis=-2, weights=weights)\n        values = np.expand_dims(values, axis=-2)\n\n    shape = values.shape[:-2]", "        values = np.mean(values, axis=-2)\n        values = np.expand_dims(values, axis=-2)\n\n    shape = values.shape[:-2]"),
+    (B, "C20", "mechanics/_job.py", "                    time += 1", "                    time += i"),
     # ---- behaviour-preserving edits: the listed checks must stay silent
     (K, "C04", "element/_quad.py", "            * 0.25\n        )\n\n    def gradient", "            / 4\n        )\n\n    def gradient"),
     (K, "C17,C03", "math/_tensor.py", "    out = np.add(A, transpose(A), out=out)\n    return np.multiply(out, 0.5, out=out)", "    out = np.add(A, transpose(A), out=out)\n    return np.divide(out, 2, out=out)"),
@@ -113,13 +119,13 @@ CORPUS = [
     (K, "C07,C15", "tools/_newton.py", "        if success:\n            break\n", "        if success is True or success:\n            break\n"),
     (K, "C07", "solve/_solve.py", "du[dof1] = du1\n    du[dof0] = ext0 - u0", "du[dof0] = ext0 - u0\n    du[dof1] = du1"),
     (K, "C05", "quadrature/_triangle.py", "scheme.points = np.ones((1, 2)) / 3", "scheme.points = np.full((1, 2), 1 / 3)"),
-    (K, "C08", "dof/_tools.py", "    mask = np.ones_like(dof.ravel(), dtype=bool)\n    mask[dof0] = False", "    mask = np.ones(dof.size, dtype=bool)\n    mask[dof0] = False"),
+    (K, "C08", "dof/_tools.py", "    mask = np.ones_like(dof.ravel(), dtype=bool)\n", "    mask = np.ones(dof.size, dtype=bool)\n"),
     (K, "C13", "region/_boundary.py", "    i = [3, 1, 0, 2]\n    j = [0, 2, 1, 3]", "    i = list((3, 1, 0, 2))\n    j = list((0, 2, 1, 3))"),
     (K, "C16", "mesh/_tools.py", "points_new[:, axis] += move", "points_new[:, axis] = points_new[:, axis] + move"),
     (K, "C12,C11", "constitution/jax/models/hyperelastic/_neo_hooke.py", "return mu / 2 * (det(C) ** (-1 / 3) * trace(C) - 3)", "J3 = det(C) ** (-1 / 3)\n    return (J3 * trace(C) - 3) * mu / 2"),
     (K, "C15", "mechanics/_step.py", "            if stop:\n                break\n", "            if stop is True:\n                break\n"),
     (K, "C20", "mechanics/_job.py", "                    time += 1", "                    time = time + 1"),
-    (K, "C06", "region/_region.py", "region.dV = np.multiply(J, region.quadrature.weights.reshape(-1, 1), out=J)", "region.dV = J * region.quadrature.weights.reshape(-1, 1)"),
+    (K, "C06", "region/_region.py", "                region.dV = np.multiply(\n                    J, region.quadrature.weights.reshape(-1, 1), out=J\n                )", "                region.dV = J * region.quadrature.weights.reshape(-1, 1)"),
     (K, "C19,C18", "mechanics/_solidbody.py", "        return dot(P, transpose(F))\n\n    def _cauchy_stress", "        FT = transpose(F)\n        return dot(P, FT)\n\n    def _cauchy_stress"),
 ]
 
